@@ -137,6 +137,9 @@ def _dict_build(n, v, kids, extra):
     if m == 0:
         return iso.PDict([{} for _ in range(extra.get("rows", 0))])
     rows = [dict(zip(keys, kids[i * m:(i + 1) * m])) for i in range(len(kids) // m)]
+    # later rows spell the same keys in another order (a dict is a mapping: the order in which a row was written means nothing)
+    rows = [row if i == 0 else {k: row[k] for k in (list(row)[i % m:] + list(row)[:i % m])[::(-1 if i % 2 else 1)]}
+            for i, row in enumerate(rows)]
     if extra.get("junk"):
         for i, row in enumerate(rows[1:]):
             row["extra%d" % i] = 99          # keys the first dict does not have are ignored
